@@ -87,7 +87,8 @@ class Renamer(ast.NodeTransformer):
 
 def main():
     mode = sys.argv[1]
-    props = sys.argv[2:] or [f"C{n:02d}" for n in range(1, 21)]
+    keep = "--keep" in sys.argv
+    props = [a for a in sys.argv[2:] if not a.startswith("--")] or [f"C{n:02d}" for n in range(1, 21)]
     d = tempfile.mkdtemp(prefix="octacheck-robust-")
     try:
         dst = os.path.join(d, "src", "octave_mcp")
@@ -115,7 +116,10 @@ def main():
                 for l in lines:
                     print("    ", l[:220])
     finally:
-        shutil.rmtree(d, ignore_errors=True)
+        if keep:
+            print("kept:", d)
+        else:
+            shutil.rmtree(d, ignore_errors=True)
 
 
 if __name__ == "__main__":
